@@ -6,6 +6,7 @@
 //	atom  =TEXT                 DecodeAtom on the string
 //	chunk =TEXT CUTS            whole-text parse and delivery in pieces (CUTS = c1,c2,.. rune offsets or -)
 //	hist  =TEXT N {=H CUTS A}   parse of TEXT after N earlier inputs on the same parser vs on a fresh parser
+//	repl  =ENTRY                the REPL's line reader (getExpressionWithLiner) given the entry line by line
 //
 // Every implementation-only comparison (pieces = whole, after history = fresh) is done here for
 // every generated split/history; all failing ones and a sample of the others become case lines, so
@@ -15,6 +16,7 @@ package main
 import (
 	"encoding/json"
 	"fmt"
+	"io"
 	"os"
 	"path/filepath"
 	"sort"
@@ -218,6 +220,8 @@ type harness struct {
 	rng      *lib.Rng
 	nChunk   int // implementation-only comparisons done
 	nHist    int
+	nRepl    int
+	failR    int
 	failC    int
 	failCU   int // failures not explained by a cut at a quote-sugar/backslash token
 	failH    int
@@ -373,6 +377,70 @@ func (h *harness) hist(text string, hs []hitem, emit bool, tags ...string) bool 
 	if (emit || !ok) && !h.emitted[input] && (ok || h.failH <= 200) {
 		h.emitted[input] = true
 		h.out.Case(input, impl, len(hs) > 0, tags...)
+	}
+	return ok
+}
+
+// ---------- the REPL line reader ------------------------------------------------
+
+// replImpl: the entry (lines separated by \n) followed by blank lines is given to the REPL's reader.
+// W = whole-text parse of the text the reader reports (of the entry when it fails), R = what the reader
+// returns, T = the reported text is a line prefix of the entry, N = number of lines it consumed.
+func (h *harness) replImpl(entry string) (string, bool) {
+	saved := os.Stdout
+	if null, err := os.OpenFile(os.DevNull, os.O_WRONLY, 0); err == nil {
+		os.Stdout = null // the reader prints prompts
+		defer func() { os.Stdout = saved; null.Close() }()
+	}
+	var text, r string
+	r = guarded(func() string {
+		t, xs, err := zygo.VerifReplEntry(h.env, entry+"\n\n\n\n\n")
+		text = t
+		if err == io.EOF {
+			return "EOF"
+		}
+		if err != nil {
+			return "E"
+		}
+		return obs(xs, nil)
+	})
+	h.nRepl++
+	n := 0
+	prefix := "prefix"
+	target := entry
+	if r[0] == 'D' {
+		n = strings.Count(text, "\n") + 1
+		target = text
+		if !(strings.HasPrefix(entry+"\n", text+"\n")) {
+			prefix = "notprefix"
+		}
+	}
+	w, _ := h.wholeOf(target)
+	ok := prefix == "prefix"
+	switch r[0] {
+	case 'D':
+		ok = ok && w == r
+	case 'P':
+		ok = false
+	default:
+		if r == "EOF" {
+			ok = ok && w[0] == 'M'
+		} else {
+			ok = ok && w[0] == 'E'
+		}
+	}
+	return "W=" + w + " ;; R=" + r + " ;; T=" + prefix + " ;; N=" + strconv.Itoa(n), ok
+}
+
+func (h *harness) repl(entry string, emit bool, tags ...string) bool {
+	impl, ok := h.replImpl(entry)
+	if !ok {
+		h.failR++
+	}
+	input := "repl " + enc(entry)
+	if (emit || !ok) && !h.emitted[input] && (ok || h.failR <= 100) {
+		h.emitted[input] = true
+		h.out.Case(input, impl, true, tags...)
 	}
 	return ok
 }
@@ -573,6 +641,22 @@ func main() {
 	}
 
 	phase("6-history")
+
+	// 7. the REPL line reader: multi-line entries, with blank and whitespace-only lines inside strings,
+	// raw strings, block comments and between the elements of a form
+	for _, e := range replEntries {
+		h.repl(e, true, "repl:edge")
+	}
+	nr := 1500
+	if thorough {
+		nr = 30000
+	}
+	for i := 0; i < nr; i++ {
+		h.repl(genReplEntry(h.rng), i%5 == 0, "repl:generated")
+	}
+	phase("7-repl")
+	out.Extra["impl_repl_comparisons"] = h.nRepl
+	out.Extra["impl_repl_failures"] = h.failR
 	out.Extra["phase_seconds"] = phases
 	out.Extra["impl_chunk_comparisons"] = h.nChunk
 	out.Extra["impl_chunk_failures"] = h.failC
@@ -639,6 +723,10 @@ func replay(h *harness, path string) {
 				cuts = f[2]
 			}
 			impl, _, _ := h.chunkImpl(dec(f[1]), parseCuts(cuts))
+			h.out.Case(in, impl, true, "replay")
+			fmt.Printf("replay %s\n  %s\n", in, strings.ReplaceAll(impl, " ;; ", "\n  "))
+		case "repl":
+			impl, _ := h.replImpl(dec(f[1]))
 			h.out.Case(in, impl, true, "replay")
 			fmt.Printf("replay %s\n  %s\n", in, strings.ReplaceAll(impl, " ;; ", "\n  "))
 		case "hist":
